@@ -2,7 +2,7 @@
 import re
 
 from core import AnchorMissing, glob_match, match_any
-from engine import (MPT, Sink, fn_origins, find_guards, accepted_relation, origins, success_reachable,
+from engine import (MPT, Sink, fn_origins, find_guards, operand_shifted, accepted_relation, origins, success_reachable,
                     CMP_REL, ALL3, who_calls, who_constructs, track_result, flows_forward,
                     return_assigns, ok_payload_variant, ty_class, loop_body_entry)
 
@@ -113,7 +113,7 @@ class Ctx:
 
     # ---- guards as sinks
     def guard_gate(self, clause, fn_or_pat, desc, pred, required, success=None, ret_filter=None, key=None,
-                   through_calls=True, per_item=False):
+                   through_calls=True, per_item=False, allow_shift=False):
         """Some comparison guard matching `pred(guard)` must gate success such that on every
         success path the relation (a vs b) lies inside `required` (subset of {lt,eq,gt})."""
         f = fn_or_pat if not isinstance(fn_or_pat, str) else self.try_fn(clause, fn_or_pat)
@@ -130,6 +130,15 @@ class Ctx:
             self.report.violation(clause, 'R6', inst, k, 'no comparison guard matching the rule instance '
                                   'exists in %s' % lf.name, f.loc())
             return None
+        # a guard whose operand is shifted by a constant (`x + 1 < y`) does not establish the stated relation
+        shifted = [(g, operand_shifted(body, g.a) or operand_shifted(body, g.b)) for g in gs]
+        shifted = [(g, s) for g, s in shifted if s]
+        if shifted and len(shifted) == len(gs) and allow_shift is False:
+            self.report.violation(clause, 'R6', inst, k, 'the compared value is shifted: %s, so the guard does not establish the '
+                                  'stated relation between the two quantities' % '; '.join('%s@L%d: %s' % (g.op, g.line, s) for g, s in shifted),
+                                  '%s:%d' % (lf.file, gs[0].line))
+            return False
+        gs = [g for g in gs if allow_shift or not (operand_shifted(body, g.a) or operand_shifted(body, g.b))]
         removed = set()
         used = []
         for g in gs:
@@ -263,6 +272,7 @@ class Ctx:
                 return False, []
         try:
             gs = [g for g in find_guards(body, through_calls) if pred(g)]
+            gs = [g for g in gs if not (operand_shifted(body, g.a) or operand_shifted(body, g.b))]
         except RecursionError:
             return False, []
         if not gs:
